@@ -220,6 +220,8 @@ def op_table(npool):
         'arch_on': st.just(['arch_on']),
         'arch_query': st.just(['arch_query']),
         'akeys': st.just(['akeys']),
+        'reattach': st.just(['reattach']),
+        'adel': st.lists(idx, min_size=1, max_size=3).map(lambda x: ['adel', x]),
         'attach': st.just(['attach']),
         'lookup': st.tuples(st.just('lookup'), idx, form).map(list),
         'key': st.tuples(st.just('key'), idx, form).map(list),
@@ -239,7 +241,7 @@ def op_lists(draw, weights, npool, min_ops, max_ops):
 
 
 DEFAULT_WEIGHTS = {'call': 12, 'hammer': 0, 'dump': 1, 'load': 1, 'dumpk': 1, 'loadk': 1, 'clear': 1,
-                   'clearkeep': 1, 'arch_off': 1, 'arch_on': 1, 'arch_query': 0, 'akeys': 0, 'lookup': 0, 'key': 0, 'awrite': 0, 'burst': 0, 'sweep': 0, 'attach': 0, 'redecorate': 0, 'reopen': 0, 'fork': 0, 'dumpreopen': 0, 'dumpswitch': 0}
+                   'clearkeep': 1, 'arch_off': 1, 'arch_on': 1, 'arch_query': 0, 'akeys': 0, 'reattach': 0, 'adel': 0, 'lookup': 0, 'key': 0, 'awrite': 0, 'burst': 0, 'sweep': 0, 'attach': 0, 'redecorate': 0, 'reopen': 0, 'fork': 0, 'dumpreopen': 0, 'dumpswitch': 0}
 
 
 @st.composite
